@@ -219,6 +219,9 @@ def run(tier):
     ck.extra["rule"] = "one case = (content class and size, writer configuration, write segmentation, descriptor situation) or one zck/unzck tool pipeline"
     ck.assumptions = ["zstd's own fidelity", "reference decoder defines validity and content of the produced file"]
     shutil.rmtree(wd, ignore_errors=True)
+    # what unzck does to the files of its working directory: the model UnzckTool and every one of its initial states as a real run
+    from .. import unzcktool
+    unzcktool.run(ck, tier, rnd)
     # allocation failures under the sanitizers (verif/allocfault.py): writer runs with every allocation of zchunk's own code
     # refused in turn; heap corruption is a violation, a stop on NULL is recorded
     from .. import allocfault as _af
